@@ -871,6 +871,23 @@ example : ∃ r cks c, run kitN cfgN2 0 5 stepsN = .done r ∧ r.pop = 7 ∧
     run kitN cfgN2 0 5 (stepsN.take 3) = .interrupted cks ∧ cks.getLast? = some c ∧ c.iter = 2 :=
   ⟨_, _, _, rfl, rfl, rfl, rfl, rfl⟩
 
+/-- the hypotheses of `resume_from_any_checkpoint` are met by the run with enlargement: the step
+    used for the enlargement delivers the 7 requested samples; its log has the in-loop checkpoint
+    of iteration 2 and the forced final one (population already enlarged) -/
+example : (∃ r, run kitN cfgN2 0 5 stepsN = .done r ∧ r.st.ckpts.map (·.pop) = [20, 7]) ∧
+    ∀ n stL s' rest', cfgN2.nFinal = some n →
+      runLoop kitN cfgN2 (initSt cfgN2 0 5) stepsN = .finishedLoop stL (s' :: rest') →
+      kitN.size s'.mutated = n := by
+  refine ⟨⟨_, rfl, rfl⟩, ?_⟩
+  intro n stL s' rest' hn hl
+  have hn' : n = 7 := by cases hn; rfl
+  have hconc : ∃ st0, runLoop kitN cfgN2 (initSt cfgN2 0 5) stepsN = .finishedLoop st0 [⟨[0], 7⟩, ⟨[0], 8⟩] :=
+    ⟨_, rfl⟩
+  obtain ⟨st0, h0⟩ := hconc
+  rw [h0] at hl
+  simp only [Outcome.finishedLoop.injEq, List.cons.injEq] at hl
+  rw [← hl.2.1, hn']; rfl
+
 /-- (b) the step-cap case: the loop stops at iteration 2 with `β = 3 ≠ 6`, the interruption falls
     into the enlargement, the last checkpoint is the one of the cap iteration -/
 example : ∃ r cks c, run kitN cfgCap 0 5 stepsCap = .done r ∧ r.st.hist.beta = [1, 3] ∧ r.pop = 7 ∧
